@@ -2071,8 +2071,13 @@ def _norm_sqrt(tot):
     rational such as a sum of squares of the entries of an inverted matrix - a rational approximation to 60 significant
     digits (norms of that kind scale a tolerance test or a ratio; the approximation is recorded nowhere else)"""
     try:
+        t0 = exact(tot)
+        if isinstance(t0, Poly) and t0.is_const():
+            t0 = t0.const_value()
+        if isinstance(t0, Fraction) and (t0.numerator.bit_length() > 2000 or t0.denominator.bit_length() > 2000):
+            raise AlgError("radicand too large to factorise")
         return _np_sqrt(tot)
-    except AlgError as e:
+    except (AlgError, ValueError) as e:
         t = exact(tot)
         if isinstance(t, Poly) and t.is_const():
             t = t.const_value()
